@@ -30,6 +30,8 @@ def scenario(ctx, i):
     spread = float(10.0 ** r.choice([-6, -4, -2, 0, 0, 1, 3]))  # the unit of the data is arbitrary: variances of 1e-12 or 1e6 are ordinary
     offset = spread * float(r.choice([0, 0, 1e3, 1e6]))
     centers = r.normal(0, 4, size=(K, D)) * spread
+    if r.random() < 0.2:  # clusters far from each other relative to their spread (1e6 .. 1e8): each one has ordinary variances
+        centers = centers * float(10.0 ** r.uniform(6, 8))
     lab = np.concatenate([np.arange(K), r.integers(0, K, N - K)])
     x = centers[lab] + r.normal(size=(N, D)) * spread + offset
     cent = centers + 0.2 * r.normal(size=(K, D)) * spread + offset
